@@ -1,5 +1,5 @@
 (* C19 - Generated fuzzing inputs are always memory-safe, valid request values. *)
-From Ctap Require Import Base Schema Utf8 Typed Arb Inst Tables Limits WireP Utf8P ArbP FnShapes Shapes ObShapeArb.
+From Ctap Require Import Base Schema Utf8 Typed Arb Inst Tables Limits WireP Utf8P ArbP FnShapes Shapes ObShapeArb Deps ObDeps.
 Local Open Scope string_scope.
 Local Open Scope Z_scope.
 
@@ -67,6 +67,10 @@ Proof. exact arb_descref_ok. Qed.
 Theorem c19_modelled_functions_unchanged_arb : shapes_hold fn_shapes shapes_arb = true.
 Proof. exact generated_shapes_arb. Qed.
 
+(* the third-party crates the model represents by hand are pinned at the versions it was written against *)
+Theorem c19_modelled_dependencies_pinned : deps_hold lock_versions cargo_deps = true.
+Proof. exact generated_deps. Qed.
+
 Eval vm_compute in "ASSUMPTIONS c19_bytes". Print Assumptions c19_bytes.
 Eval vm_compute in "ASSUMPTIONS c19_byte_array". Print Assumptions c19_byte_array.
 Eval vm_compute in "ASSUMPTIONS c19_str". Print Assumptions c19_str.
@@ -79,3 +83,4 @@ Eval vm_compute in "ASSUMPTIONS c19_user_entity". Print Assumptions c19_user_ent
 Eval vm_compute in "ASSUMPTIONS c19_hmac_secret_input". Print Assumptions c19_hmac_secret_input.
 Eval vm_compute in "ASSUMPTIONS c19_str_ref". Print Assumptions c19_str_ref.
 Eval vm_compute in "ASSUMPTIONS c19_descriptor_ref". Print Assumptions c19_descriptor_ref.
+Eval vm_compute in "ASSUMPTIONS c19_modelled_dependencies_pinned". Print Assumptions c19_modelled_dependencies_pinned.
